@@ -13,6 +13,9 @@ CLAIMED = {
     "C17": ("Lean 4 refinement proof (concrete containers refine a plain map/set model, for all operation sequences) + differential correspondence of the model against src/graph.rs and src/variables.rs",
             "Kernel-checked theorems: every sequence of mutating operations on the container model returns the observations of, and abstracts to, a plain map/set specification (C17_refines_from_empty), edge lists stay strictly ascending, attribute add conflicts iff a different value was present, nested variable sets never change outer ones. The model is tied to the Rust containers by replaying random operation sequences (<= 200 ops, > 8 edges per node) on both and comparing every observation and the final graph.",
             "DESIGN.md section 7, C17"),
+    "C13": ("Lean 4 theorems per stdlib function over all argument tuples (model mirrors each Function::call incl. param/finish order) + differential correspondence against Functions::stdlib().call + tree-sitter Node API as direct oracle",
+            "Kernel-checked contracts for every argument tuple: eq (null comparable to anything, structural within a variant, error across variants, arity), is-null, not/and/or (folds, type errors), plus (sum iff < 2^32, FunctionFailed on overflow), format (escape round-trip, compositional placeholder step, missing/extra argument, lone brace), concat/length/is-empty/join (incl. arity), node freshness, syntax accessors equal to the tree, named-child-index position, registration table, unknown function. The regex behind `replace` is an oracle. Tie: 6000 (quick) generated calls per run incl. wrong arity/type, compared outcome-by-outcome; syntax accessors additionally against tree-sitter's Node API.",
+            "DESIGN.md section 7, C13"),
 }
 
 NOT_YET = {}
